@@ -75,12 +75,30 @@ class Parser:
       contentmsg = "Content: {}\n".format(string)
       datatypemsg = "Datatype: {}\n".format(datatype)
       errmsg = err.message if hasattr(err, "message") else str(err)
-      raise err.__class__(
+      raise Parser._gfapy_error_class(err)(
             linemsg +
             fieldnamemsg +
             datatypemsg +
             contentmsg +
             errmsg) from err
+
+  @staticmethod
+  def _gfapy_error_class(err):
+    """
+    The class to use when an exception raised while decoding/encoding a field
+    is raised again with the field context: the same class for library errors;
+    the corresponding library class for builtin exceptions raised by
+    Python functions used by the decoders (e.g. int(), json.loads()).
+    """
+    if isinstance(err, gfapy.Error):
+      return err.__class__
+    elif isinstance(err, TypeError):
+      return gfapy.TypeError
+    elif isinstance(err, ValueError) and not isinstance(err, UnicodeError) \
+        and err.__class__.__name__ != "JSONDecodeError":
+      return gfapy.ValueError
+    else:
+      return gfapy.FormatError
 
   @staticmethod
   def _parse_gfa_tag(tag):
